@@ -726,7 +726,7 @@ def rand_buf_case(rng):
 
 def rand_key(rng):
     k = rng.randrange(100)
-    arg = rng.choice([1, 1, 1, 1, 2, 3, 12])
+    arg = rng.choice([1, 1, 1, 1, 2, 3, 12, 0, -1, -2])
     harg = rng.choice([1, 1, 1, 2, 3, 0, -1, -2, 12])
     if k < 22:
         return ["up", arg]
@@ -914,23 +914,28 @@ class PrefixTracker:
         return self.typed
 
 
-def takes_history_branch(name, before):
-    """auto_up / auto_down move inside a multi-line text when they can"""
-    if name in ("aup", "up", "c-p", "k"):
-        return "\n" not in before["text"][:before["cur"]]
-    if name in ("adown", "down", "c-n", "j"):
+def takes_history_branch(name, before, count=1):
+    """auto_up / auto_down move inside a multi-line text when they can; a count of zero does
+    nothing and a negative count goes the other way"""
+    up, down = ("aup", "up", "c-p", "k"), ("adown", "down", "c-n", "j")
+    if name in up + down:
+        if count == 0:
+            return False
+        go_up = (name in up) == (count > 0)
+        if go_up:
+            return "\n" not in before["text"][:before["cur"]]
         return "\n" not in before["text"][before["cur"]:]
     return name in ("hb", "hf", "prevhist", "nexthist", "endhist")
 
 
-def check_nav(V, site, name, before, after, desc, tracker):
+def check_nav(V, site, name, before, after, desc, tracker, count=1):
     """an up/down/page/goto/cursor step: stored history, working copies untouched"""
     if after["storage"] != before["storage"] or after["hist"] != before["hist"]:
         V.add(site, "navigation changed the stored history",
               f"{desc}: {before['storage']!r}/{before['hist']!r} -> {after['storage']!r}/{after['hist']!r}")
     if after["work"] != before["work"]:
         V.add(site, "navigation changed a working copy", f"{desc}: {before['work']!r} -> {after['work']!r}")
-    if takes_history_branch(name, before):
+    if takes_history_branch(name, before, count):
         typed = tracker.history_step(before)
         if name != "endhist" and after["idx"] != before["idx"]:
             if typed is not None and not after["text"].startswith(typed):
@@ -1050,7 +1055,8 @@ def buf_oracle(case, trace):
         if not wf(V, site, after, desc):
             break
         if k in NAV_OPS:
-            check_nav(V, site, k, before, after, desc, tracker)
+            check_nav(V, site, k, before, after, desc, tracker,
+                      count=op[1] if k in ("aup", "adown") else 1)
             if k == "validate" and verdict(spec, before["text"]) is not None and out == "b1":
                 V.add(site, "validate() true although the validator fails", desc)
         elif k in EDIT_OPS:
@@ -1128,7 +1134,9 @@ def sess_oracle(case, events):
             name = e["key"][0]
             before = e["before"]
             if name in KEY_NAV:
-                check_nav(V, "key " + name, name, before, after, desc, tracker)
+                kk = e["key"]
+                check_nav(V, "key " + name, name, before, after, desc, tracker,
+                          count=kk[1] if name in ("up", "down", "c-p", "k", "j") and len(kk) > 1 else 1)
             elif name in KEY_EDIT:
                 check_edit(V, "key " + name, before, after, desc)
                 if after["text"] != before["text"]:
